@@ -27,6 +27,8 @@ import (
 	"syscall"
 	"testing"
 	"time"
+
+	cptv "github.com/TheCacophonyProject/go-cptv"
 )
 
 // installDepHook is set by c10_dephook_test.go in the dependency-hook build.
@@ -52,6 +54,42 @@ type c10Scenario struct {
 	TakenNamesAtFrame int
 	// the output directory and its constant-recordings folder are symbolic links
 	SymlinkedDirs bool
+	// that many finished recordings are already waiting in the output directory and in
+	// constant-recordings (an upload backlog) before the connection starts
+	Backlog int
+}
+
+const backlogPrefix = "backlog-"
+
+// makeBacklog fills dir with n complete recordings (hard links to one small CPTV file).
+func makeBacklog(dir string, n int, cam pCamera) error {
+	if err := os.MkdirAll(dir, 0755); err != nil {
+		return err
+	}
+	first := filepath.Join(dir, backlogPrefix+"00000.cptv")
+	w, err := cptv.NewFileWriter(first, vSpec{cam.ResX, cam.ResY, cam.FPS})
+	if err != nil {
+		return err
+	}
+	if err := w.WriteHeader(cptv.Header{Timestamp: time.Now(), DeviceName: "verif", FPS: cam.FPS}); err != nil {
+		return err
+	}
+	for i := 0; i < 3; i++ {
+		f := &pFrame{Seq: i, TimeOnMS: timeOnFor(i), Pix: newPix(cam.ResX, cam.ResY, 3000), FPATempCK: 30000, FPAFFCCK: 30000}
+		if err := w.WriteFrame(framesToCptv(f, cam)); err != nil {
+			return err
+		}
+	}
+	w.Close()
+	if d := decodeCPTV(first); d.Err != "" || len(d.Frames) < 2 {
+		return fmt.Errorf("backlog recording does not decode: %s", d.Err)
+	}
+	for i := 1; i < n; i++ {
+		if err := os.Link(first, filepath.Join(dir, fmt.Sprintf("%s%05d.cptv", backlogPrefix, i))); err != nil {
+			return err
+		}
+	}
+	return nil
 }
 
 // takeNames creates empty files bearing the temporary recording names of the next ms milliseconds.
@@ -128,6 +166,11 @@ func c10Scenarios() []c10Scenario {
 	c12.MaxSecs = 2
 	s12 := c10Scenario{Name: "S12", What: "output directory and constant-recordings folder reached through symbolic links; constant recorder on, with a motion recording", Cfg: c12, Cam: cam, Frames: c10Frames(cam, "ffffmmmffffffffffffff"), SymlinkedDirs: true}
 	out = append(out, s12)
+	c13 := base()
+	c13.Constant = true
+	c13.MaxSecs = 2
+	s13 := c10Scenario{Name: "S13", What: "3000 finished recordings already wait in the output directory and in constant-recordings (upload backlog); constant recorder on, with a motion recording", Cfg: c13, Cam: cam, Frames: c10Frames(cam, "ffffmmmffffffffffffff"), Backlog: 3000}
+	out = append(out, s13)
 	c9 := base()
 	c9.Throttle, c9.BucketSize, c9.MinRefill = true, "3s", "200ms"
 	c9.MaxSecs = 30
@@ -143,8 +186,8 @@ func c10Scenarios() []c10Scenario {
 func scanComplete(outDir string) (bad []string, complete int) {
 	for _, dir := range []string{outDir, filepath.Join(outDir, "constant-recordings")} {
 		for _, n := range dirListing(dir) {
-			if !strings.HasSuffix(n, ".cptv") {
-				continue
+			if !strings.HasSuffix(n, ".cptv") || strings.HasPrefix(n, backlogPrefix) {
+				continue // (backlog entries are the harness' own, verified complete when they were made)
 			}
 			d := decodeCPTV(filepath.Join(dir, n))
 			if d.Err != "" || len(d.Frames) < 2 {
@@ -235,6 +278,13 @@ func TestVerif_C10Child(t *testing.T) {
 	if err != nil {
 		t.Fatal(err)
 	}
+	if sc.Backlog > 0 {
+		for _, d := range []string{r.OutDir, filepath.Join(r.OutDir, "constant-recordings")} {
+			if err := makeBacklog(d, sc.Backlog, sc.Cam); err != nil {
+				t.Fatal("backlog: ", err)
+			}
+		}
+	}
 	// fixed location so that the parent finds the output
 	ioutil.WriteFile(filepath.Join(root, "outdir.txt"), []byte(r.OutDir), 0644)
 	var hits int64
@@ -254,7 +304,7 @@ func TestVerif_C10Child(t *testing.T) {
 		defer fpMu.Unlock()
 		for _, dir := range []string{r.OutDir, filepath.Join(r.OutDir, "constant-recordings")} {
 			for _, n := range dirListing(dir) {
-				if !strings.HasSuffix(n, ".cptv") {
+				if !strings.HasSuffix(n, ".cptv") || strings.HasPrefix(n, backlogPrefix) {
 					continue
 				}
 				b, err := ioutil.ReadFile(filepath.Join(dir, n))
@@ -275,7 +325,9 @@ func TestVerif_C10Child(t *testing.T) {
 	var samples int64
 	go func() {
 		defer close(obsDone)
-		if os.Getenv("VERIF_C10_NO_OBSERVER") != "" {
+		if os.Getenv("VERIF_C10_NO_OBSERVER") != "" || sc.Backlog > 0 {
+			// (with a backlog of thousands of entries the scans would dominate the run; that
+			// scenario is about what the clean-up finds after the kill)
 			return
 		}
 		for {
@@ -315,7 +367,7 @@ func TestVerif_C10Child(t *testing.T) {
 		// synchronous observer at hook granularity. (Not while the frame on which two
 		// recordings start together is being processed: the scan would push the two
 		// starts into different milliseconds and hide the collision S8 is about.)
-		if !(sc.SameFrameStart && int(atomic.LoadInt64(&framesRx)) == sc.SnapAtFrame+1) {
+		if !(sc.SameFrameStart && int(atomic.LoadInt64(&framesRx)) == sc.SnapAtFrame+1) && sc.Backlog == 0 {
 			if bad, _ := scanComplete(r.OutDir); len(bad) > 0 {
 				reportI1(fmt.Sprintf("hook #%d %s", h, n), bad)
 			}
@@ -445,7 +497,7 @@ func TestVerif_C10(t *testing.T) {
 	defer c.Finish()
 	scratch := vEnv("VERIF_SCRATCH", t.TempDir())
 	scs := c10Scenarios()
-	quickSet := map[string]bool{"S1": true, "S3": true, "S4": true, "S5": true, "S6": true, "S8": true, "S10": true, "S11": true, "S12": true}
+	quickSet := map[string]bool{"S1": true, "S3": true, "S4": true, "S5": true, "S6": true, "S8": true, "S10": true, "S11": true, "S12": true, "S13": true}
 	for si, sc := range scs {
 		if !c.Thorough() && !quickSet[sc.Name] {
 			continue
